@@ -132,8 +132,11 @@ class StepRegistry(object):
         # -- CURRENT:
         step_location = new_step_matcher.location
         step_definitions = self.steps[new_step_type]
+        # -- NOTE: Compare the pattern as the step-matcher stores it,
+        #    the "re" step-matcher adds begin/end markers to the step_text.
+        step_pattern = new_step_matcher.pattern
         for existing in step_definitions:
-            if self.same_step_definition(existing, step_text, step_location):
+            if self.same_step_definition(existing, step_pattern, step_location):
                 # -- EXACT-STEP: Same step function is already registered.
                 # This may occur when a step module imports another one.
                 return
